@@ -1,4 +1,4 @@
-"""C24 Unstaking returns the stake exactly once, and only when due (DESIGN.md §5 C24) — node part."""
+"""C24 Unstaking returns the stake exactly once, and only when due (DESIGN.md §5 C24) — nodes and applications."""
 import importlib.util, os
 _spec = importlib.util.spec_from_file_location("_nodes", os.path.join(os.path.dirname(os.path.abspath(__file__)), "_nodes.py"))
 _nodes = importlib.util.module_from_spec(_spec)
@@ -7,8 +7,8 @@ _spec.loader.exec_module(_nodes)
 META = dict(
     engine="E-CHAIN",
     technique="Lean 4 proof (stability of record status under every operation but EndBlocker; analysis of ReleaseWaitingValidators and of the mature-queue loop over a snapshot of queue slices, using the queue-exactness invariant) + per-phase transition checking and payout accounting against the real PocketCoreApp",
-    level_text="Kernel-checked for every state satisfying the (proved) store invariant, hence for every step of every history: outside EndBlocker no operation changes a record's status or deletes a record; in an end-block a staked node keeps its status unless height % BlocksPerSession = 0 and it is in the waiting set at release time; begin-unstake is accepted only from operator/output for a staked node; finishing pays the full stake once from the pool to the output address and deletes the record; a record disappears only when due at the block time; after every end-block at time t no unstaking record with completion time ≤ t is left (first block at or after completion); a second queue entry for a paid node does nothing. Tie: histories with begin-unstake at arbitrary heights, UnstakingTime 0..30h and changes of it, block-time jumps up to 31h, jail/slash while unstaking; balances of all accounts and the pool are compared per end-block with the stakes of the records that disappeared.",
-    level_note=_nodes.NOTE + " Applications' unstaking is covered by the applications package (C20/C28 harness).",
+    level_text="Kernel-checked for every state satisfying the (proved) store invariant, hence for every step of every history: outside EndBlocker no operation changes a record's status or deletes a record; in an end-block a staked node keeps its status unless height % BlocksPerSession = 0 and it is in the waiting set at release time; begin-unstake is accepted only from operator/output for a staked node; finishing pays the full stake once from the pool to the output address and deletes the record; a record disappears only when due at the block time; after every end-block at time t no unstaking record with completion time ≤ t is left (first block at or after completion); a second queue entry for a paid node does nothing. Applications: begin-unstake only by the application itself (staked, unjailed); after the end blocker no queued unstaking application with completion ≤ block time is left (equality included); payout of the whole stake to the application's own address, once. Tie: histories with begin-unstake at arbitrary heights, UnstakingTime 0..30h and changes of it, block-time jumps up to 31h, jail/slash while unstaking; balances of all accounts and the pool are compared per end-block with the stakes of the records that disappeared.",
+    level_note=_nodes.NOTE + " Application half: model lean/PocketModel/Ledger/Apps.lean (applications package); the 'nothing overdue' theorem for applications is stated under the hypothesis that every unstaking application is queued under its completion time (monitored on the implementation: app-unstaking-not-queued), payouts under 'the pool covers the stake' (C20).",
 )
 
 
@@ -18,7 +18,15 @@ def run(ctx):
     _w = importlib.util.module_from_spec(_sp); _sp.loader.exec_module(_w)
     _w.run(ctx, ['x/nodes/keeper', 'x/nodes', 'x/apps/keeper', 'x/apps'])
     ctx.lean_proofs("Props.C24")
-    _nodes.run_nodes(ctx, "C24", "c24")
+    _nodes.run_nodes(ctx, "C24", "c24", quick=200)
+    # application half: the applications package's harness and driver (Driver/Apps.lean: app-unstaked-early, app-unstake-late,
+    # app-unstake-payout-ne, app-unstake-by-stranger, … on the real app's own states), biased towards block times that land
+    # exactly on completion times (-exact: whole-minute steps, AppUnstakingTime 0 / 1m / 30m / 1h / 90m); no sends to the pool
+    ctx.rule("appsdrive -exact (applications): begin-unstake by owner/stranger, AppUnstakingTime in {0, 1m, 30m, 1h, 90m} (genesis and governance), "
+             "block-time steps of whole minutes (1m, 29m, 30m, 1h) so that header times equal completion times to the nanosecond, "
+             "jail/force-unstake at keeper level, duplicate queue entries; see checks/C20.py")
+    n = 30000 if ctx.thorough else 1800
+    ctx.stream("apps-unstake", "appsdrive", "Driver/Apps.lean", n=n, args=["-donate", "0", "-exact", "-breadth=false"], seed=ctx.seed + 300)
 
 
 def search(ctx):
